@@ -177,7 +177,8 @@ def edge_dominates(fn, br, truth, inst):
 
 
 def guards_of(fn, inst):
-    """branch conditions known on every path to inst: list of (cond_ref, truth, br)"""
+    """branch conditions known on every path to inst: list of (cond_ref, truth, br).
+    Short-circuit conditions (i1 phis of && / ||) are expanded into their conjuncts / disjuncts."""
     out = []
     for b in fn.blocks:
         t = b.term
@@ -185,6 +186,29 @@ def guards_of(fn, inst):
             for truth in (True, False):
                 if edge_dominates(fn, t, truth, inst):
                     out.append((t["cond"], truth, t))
+    # expand a && b (phi [false, ..., b]) known true, and a || b (phi [true, ..., b]) known false
+    seen = set()
+    work = list(out)
+    while work:
+        cond, truth, br = work.pop()
+        p = fn.inst(cond)
+        if p is None or p.op != "phi" or p.get("ty") != "i1" or (cond, truth) in seen:
+            continue
+        seen.add((cond, truth))
+        consts = [(v, b) for v, b in p["inc"] if v in ("#0", "#1")]
+        others = [(v, b) for v, b in p["inc"] if v not in ("#0", "#1")]
+        if len(others) != 1:
+            continue
+        short = "#0" if truth else "#1"
+        if all(v == short for v, b in consts):
+            v, pb = others[0]
+            out.append((v, truth, br))
+            work.append((v, truth, br))
+            # the edge into the phi from the block that computed the last operand implies the earlier operands too
+            for g in guards_of(fn, fn.blocks[pb].insts[-1]):
+                if g not in out:
+                    out.append(g)
+                    work.append(g)
     return out
 
 
